@@ -54,10 +54,27 @@ def mesh_from_pieces(pieces, disjoint=False, rng=None):
         mesh = trimesh.util.concatenate(ms)
     else:
         mesh = trimesh.boolean.union(ms, engine="manifold")
+    allv = np.vstack([P.V for P in pieces])
+    if len(ms) > 1 and not disjoint:
+        # manifold works in single precision: vertices come back rounded to ~1e-7.  For unions of axis-aligned
+        # boxes every vertex coordinate of the exact union is one of the pieces' coordinates: snap to them.
+        # (Other unions -- `vee` -- keep the 1e-7 rounding, three orders of magnitude below eps.)
+        if all(np.all((np.abs(P.A) < 1e-12) | (np.abs(np.abs(P.A) - 1) < 1e-12)) for P in pieces):
+            verts = np.array(mesh.vertices, dtype=float)
+            for k in range(3):
+                grid = np.unique(allv[:, k])
+                idx = np.clip(np.searchsorted(grid, verts[:, k]), 1, len(grid) - 1)
+                lo_, hi_ = grid[idx - 1], grid[idx]
+                near = np.where(np.abs(verts[:, k] - lo_) < np.abs(verts[:, k] - hi_), lo_, hi_)
+                # (vertices that manifold introduced inside a face, where triangle diagonals cross the other
+                # box, keep their in-plane coordinate; the coordinates that lie on face planes are snapped)
+                close = np.abs(near - verts[:, k]) <= 1e-6 * max(1.0, np.abs(grid).max())
+                verts[close, k] = near[close]
+            mesh = trimesh.Trimesh(vertices=verts, faces=np.array(mesh.faces), process=False)
     if not mesh.is_volume:
         raise ValueError("generated mesh is not a volume")
-    allv = np.vstack([P.V for P in pieces])
-    if np.abs(mesh.bounds[0] - allv.min(axis=0)).max() > 1e-9 or np.abs(mesh.bounds[1] - allv.max(axis=0)).max() > 1e-9:
+    tolb = 1e-9 if (len(ms) == 1 or disjoint) else 1e-6 * max(1.0, float(np.abs(allv).max()))
+    if np.abs(mesh.bounds[0] - allv.min(axis=0)).max() > tolb or np.abs(mesh.bounds[1] - allv.max(axis=0)).max() > tolb:
         raise ValueError("generated mesh has other bounds than its pieces")
     # membership agreement on probe points away from the boundary
     rng = rng or np.random.default_rng(12345)
@@ -194,7 +211,7 @@ def random_shape(rng, kind):
         vol = solid.union_volume_axis_aligned()
         if abs(mesh.volume - vol) > 1e-7 * max(1.0, vol):
             raise ValueError(f"union mesh volume {mesh.volume} != exact {vol}")
-    if mesh.body_count != bodies and kind != "shell":
+    if mesh.body_count != bodies:
         raise ValueError(f"{kind}: body count {mesh.body_count}")
     mid = len(_geom.MESHES)
     _geom.MESHES[mid] = mesh
